@@ -152,7 +152,11 @@ func (c *Client) handlePacket(pktx pkts.Packet) error {
 		// I suppose the right reaction is to reject the registratin with
 		// `Rejected: invalid topic ID`.
 		var returnCode pkts1.ReturnCode
-		if _, ok := c.registeredTopics[string(pkt.TopicName)]; ok {
+		if topicID, ok := c.registeredTopics[string(pkt.TopicName)]; ok && topicID == pkt.TopicID {
+			// The same registration again: the gateway retransmits its
+			// REGISTER when our REGACK got lost.
+			returnCode = pkts1.RC_ACCEPTED
+		} else if ok {
 			returnCode = pkts1.RC_INVALID_TOPIC_ID
 		} else {
 			returnCode = pkts1.RC_ACCEPTED
